@@ -1,7 +1,7 @@
 //! Volume configurations and creation of fresh volumes through the crate's own formatter.
 #![allow(dead_code)]
 
-use crate::dev::{Image, MonDev, PAGE};
+use crate::dev::{Image, MonDev};
 use crate::util::{Rng, J};
 
 #[derive(Clone, Debug, PartialEq, Eq, Hash)]
@@ -20,6 +20,8 @@ pub struct VolCfg {
     pub garbage: bool,
     /// sectors after the last whole cluster (a partial cluster that must never be used)
     pub slack: u8,
+    /// the whole device (FAT area, reserved sectors, root directory included) holds garbage before formatting
+    pub used_device: bool,
 }
 
 impl VolCfg {
@@ -33,7 +35,7 @@ impl VolCfg {
             self.root_entries,
             self.clusters,
             if self.extra > 0 { "-emb" } else { "" },
-            if self.garbage { "-garb" } else { "" }
+            if self.used_device { "-used" } else if self.garbage { "-garb" } else { "" }
         ) + &(if self.slack % self.spc.max(1) > 0 { format!("-slack{}", self.slack % self.spc) } else { String::new() })
     }
     pub fn class(&self) -> String {
@@ -61,10 +63,14 @@ pub fn make_volume(cfg: &VolCfg) -> Result<(Image, u64), String> {
     let total = cfg.total_sectors();
     let vol_bytes = u64::from(total) * u64::from(cfg.bps);
     let mut img = Image::new(vol_bytes + u64::from(cfg.extra));
-    if cfg.garbage {
+    if cfg.used_device {
+        // a used device: every byte the formatter does not write explicitly (all FAT copies, root directory,
+        // FAT32 root cluster included) stays garbage
+        img.set_fill_from(0, GARBAGE);
+    } else if cfg.garbage {
         // from the first page boundary after a generous metadata estimate; format zero-fills what it needs
         let meta = vol_bytes - (u64::from(cfg.clusters) * u64::from(cfg.spc) + u64::from(cfg.slack % cfg.spc.max(1))) * u64::from(cfg.bps);
-        let start = (meta + PAGE as u64 - 1) / PAGE as u64 * PAGE as u64 + PAGE as u64;
+        let start = (meta + 4095) / 4096 * 4096 + 4096;
         if start < vol_bytes {
             img.set_fill_from(start, GARBAGE);
         }
@@ -136,6 +142,7 @@ pub fn grid(rng: &mut Rng, tiny: bool) -> VolCfg {
         extra: if rng.chance(1, 3) { 8192 } else { 0 },
         garbage: rng.chance(2, 3),
         slack: if spc > 1 && rng.chance(1, 2) { 1 + rng.below(u64::from(spc) - 1) as u8 } else { 0 },
+        used_device: fat != 32 && rng.chance(1, 3) || rng.chance(1, 12),
     }
 }
 
@@ -152,6 +159,6 @@ pub fn small_cfg(fat: u8) -> VolCfg {
             _ => 65600,
         },
         extra: 4096,
-        garbage: true, slack: 0
+        garbage: true, slack: 0, used_device: false
     }
 }
